@@ -45,10 +45,10 @@ def _offset_sums(fn):
 def run(ck):
     m = ck.repo.mod(REL)
     ck.rule("R1", "an offset + i key of a per-base byte map is always reduced with & mask", floor=5)
-    ck.rule("R2", "writer and reader agree on byte order", floor=5)
+    ck.rule("R2", "writer and reader agree on byte order", floor=4)
     ck.rule("R3", "writing a cell's original content back removes the stored byte", floor=1)
-    ck.rule("R4", "state export/import goes through the same read/write API and covers ids and memory", floor=4)
-    ck.rule("R6", "SymbolMngr store discipline: every path of write() updates the matching table; no bypass, no removal instead of a store", floor=10)
+    ck.rule("R4", "state export/import goes through the same read/write API and covers ids and memory", floor=2)
+    ck.rule("R6", "SymbolMngr store discipline: every path of write() updates the matching table; no bypass, no removal instead of a store", floor=8)
     from rules._symstore import symstore_rules
     symstore_rules(ck, "R6")
 
